@@ -194,7 +194,7 @@ def run_random(spec, ctx):
         elif kind in ("equiv", "nickname"):
             how = rng.choice(["multiple", "vector-scales-differ", "one-entry-B", "one-entry-T", "tail-only", "random",
                               "preset-multiple", "preset-lookalike"])
-            k = rng.choice(gen.SCALES + [1.0])
+            k = rng.choice(gen.SCALES + gen.ODD_SCALES + [1.0])
             a = [list(base[0]), list(base[1])]
             if how == "multiple":
                 b = gen.scale(a, k)
